@@ -7,21 +7,37 @@ export TMPDIR="$ROOT/.work/tmp"
 mkdir -p "$ROOT/.work/tmp" "$ROOT/bin" "$ROOT/evidence"
 cd "$ROOT"
 
-build_plain() {
+# build_variant <variant>: regenerates the overlay from /repo's current files and builds bin/vcheck[-variant]
+build_variant() {
+  local v="$1" out="$ROOT/bin/vcheck"
+  [ "$v" != plain ] && out="$ROOT/bin/vcheck-$v"
   cp /repo/go.sum "$ROOT/go.sum" 2>/dev/null
-  go build -o "$ROOT/bin/vcheck" ./cmd/vcheck 2>"$ROOT/.work/build.log"
+  if [ ! -x "$ROOT/bin/instr" ] || [ "$ROOT/cmd/instr/main.go" -nt "$ROOT/bin/instr" ]; then
+    go build -o "$ROOT/bin/instr" ./cmd/instr 2>"$ROOT/.work/build.log" || { cat "$ROOT/.work/build.log" >&2; return 2; }
+  fi
+  "$ROOT/bin/instr" "$v" "$ROOT/.work/ov-$v" >"$ROOT/.work/instr-$v.log" 2>&1 || { cat "$ROOT/.work/instr-$v.log" >&2; return 2; }
+  go build -overlay "$ROOT/.work/ov-$v/overlay.json" -o "$out" ./cmd/vcheck 2>"$ROOT/.work/build.log"
   local rc=$?
   if [ $rc -ne 0 ]; then
-    echo "BUILD FAILED (infrastructure, not a violation):" >&2
+    echo "BUILD FAILED variant=$v (infrastructure, not a violation):" >&2
     cat "$ROOT/.work/build.log" >&2
     return 2
   fi
   return 0
 }
+build_plain() { build_variant plain; }
+# variants a check needs besides plain
+variants_of() {
+  case "$1" in
+    C03|C04|C05|C07|C12) echo b3 ;;
+    C16) echo sched ;;
+  esac
+}
 
 case "${1:-}" in
   setup)
     build_plain || exit 2
+    for v in b3; do build_variant $v || exit 2; done
     echo "setup ok"
     ;;
   replay)
@@ -31,6 +47,7 @@ case "${1:-}" in
   C[0-9][0-9])
     id="$1"; tier="${2:-quick}"
     build_plain || exit 2
+    for v in $(variants_of "$id"); do build_variant $v || exit 2; done
     "$ROOT/bin/vcheck" run "$id" "$tier" "$ROOT"
     rc=$?
     rm -rf "$ROOT/.work/tmp"/* 2>/dev/null
